@@ -181,10 +181,7 @@ def applyTok (L : Option Nat) (stv : List G × Bool) (tok : String) : Option (Li
     pure (.aggregate g (.val (.int i)) f :: st)
   | ["withcount"], g :: st => some (.withCount g vbeq :: st)
   -- `distinct` (`include.rs:198`): with_count, keep the first occurrences, project
-  | ["distinct"], g :: st =>
-    some (.map (.filter (.withCount g vbeq)
-        (fun | .val (.tup [_, .int n]) => prOfBool (n == 1) | .viol => .viol | _ => .err))
-        (fun | .val (.tup [v, _]) => .val v | .viol => .viol | _ => .err) :: st)
+  | ["distinct"], g :: st => some (g.distinct vbeq :: st)
   -- `chunks` (`include.rs:165-184`) is library code: map(some) . add([none]) . aggregate(Agg(stack, disp)) . filter . map;
   -- `some(v)` is `tup [v]`, `none()` is `tup []`, `Agg(s, disp)` is `tup [seq s, int d]` (d: 0 none, 1 some(false), 2 some(true))
   | ["chunks", n], g :: st => do
@@ -269,6 +266,11 @@ def genEngine (f : String) (args : List String) : String :=
         match i.toInt? with
         | some i => showRes showV (get L fuel g i)
         | none => "bad-op"
+      | "nth" :: k :: p =>
+        match k.toInt?, parseP (":".intercalate p) with
+        | some k, some p =>
+          showRes (fun (o : Option V) => match o with | some v => "some " ++ showV v | none => "none") (nth L fuel g k p)
+        | _, _ => "bad-op"
       | ["steps", n] =>
         match n.toNat? with
         | some n => "ok" ++ String.join ((outs L n (g.start L)).map fun x => " " ++ showItem x)
